@@ -591,6 +591,9 @@ def gen_one_per_session(rng, kind, n):
     for k in range(n):
         sc = base(rng, kind, {"max": rng.choice([1, 2, 3]), "min_idle": 0, "idle_ms": 60000})
         sc["one_per_session"] = True
+        # (every other server says so at once: "250 queued" and "421 closing" in one segment, then it closes - the acceptance stands)
+        if k % 2:
+            sc["farewell_with_acceptance"] = True
         sc["senders"] = [[send_op("o%d-%d" % (t, j), rng) for j in range(rng.randint(2, 3))] for t in range(rng.randint(1, 3))]
         sc["after"] = [{"op": "debug"}]
         sc["family"] = "one-message-per-session"
